@@ -9,7 +9,7 @@ from vlib import sfgen
 PROP = "C07"
 LEVEL = "proof"
 COQ_DIRS = ["C07", "Bosonic"]
-COQ_TARGETS = ["Gen/GaussCirc.vo", "Base/MatOps.vo", "Gen/GaussMat.vo", "C07/GaussPassive.vo", "Base/GaussTac.vo", "Base/PhaseSpace.vo", "C07/GaussPhysical.vo", "C07/Symplectic.vo"] + list(bm.COQ_TARGETS)
+COQ_TARGETS = ["Gen/GaussCirc.vo", "Base/MatOps.vo", "Gen/GaussMat.vo", "C07/GaussPassive.vo", "C07/GaussProgram.vo", "Base/GaussTac.vo", "Base/PhaseSpace.vo", "C07/GaussPhysical.vo", "C07/Symplectic.vo"] + list(bm.COQ_TARGETS)
 PROPERTIES_FILE = "Properties/C07.v"
 EXTRA_PROPERTIES_FILES = [bm.PROPERTIES_FILE]
 ALLOWED_AXIOMS = set()
